@@ -51,6 +51,13 @@ func parseGoTestResults(data []byte) (core.TestSuite, error) {
 			}
 		case gtr.Pass:
 			execution.Stdout = output
+		default:
+			// The test was started but never reported a result (e.g. it timed out, called os.Exit or crashed).
+			execution.Error = &core.TestResultFailure{
+				Type:      "NoResult",
+				Message:   "No test result found",
+				Traceback: output,
+			}
 		}
 		suite.TestCases = append(suite.TestCases, core.TestCase{
 			Name:       test.Name,
